@@ -15,7 +15,7 @@ meta = {
     "description_and_what_it_needs_to_manifest": meta_txt.strip(),
     "confirmed": "tools/mutant_verify.sh: in a fresh scratch worktree the patch applies, the suite stays at '1 failed, 70 passed' (test_ctparse only), "
                  "demo.py exits 0 without the change and 1 with it",
-    "checks_run": "tools/mutant_check.sh <dir> quick %s (git -C /repo apply; check; git -C /repo checkout -- .)" % prop,
+    "checks_run": "tools/mutant_check3.sh <dir> quick %s (own scratch worktree of /repo HEAD with the patch applied, VERIF_REPO pointing at it, removed afterwards)" % prop,
     "caught_by": caught,
 }
 json.dump(meta, open(os.path.join(dst, "meta.json"), "w"), indent=1, ensure_ascii=False)
